@@ -222,7 +222,9 @@ class Prop:
         "targets are not generated",
         "st_mtime floats are compared exactly through float.as_integer_ratio(); the harness only uses mtimes that are multiples "
         "of 1/8 s so that the float is the value it requested",
-        "Python str order = lexicographic order of code points; list.sort/sorted is a stable sort (modelled by an insertion sort)",
+        "Python str order = lexicographic order of code points; sorted() is a stable sort that only uses < on the keys (modelled by an "
+        "insertion sort); PurePosixPath order = list order of the components -- all three modelled, and exercised on every run "
+        "(sorted(key=attrgetter('name')) on FileSystemEntry objects and sorted(key=itemgetter(0)) on (Path, tag) pairs with duplicate names)",
         "PARTIAL: the preservation of the node structure by save/load is the general C05 round trip; here it is a theorem only for the "
         "clone-free FileSystemEntry trees of this model, byte transport (json/zip) being trusted and exercised",
     ]
